@@ -9,7 +9,7 @@ from inscripta.biocantor.parent import SequenceType
 
 from harness.cdsmodel import codon_strings, consistent_frames, ref_codon_positions, ref_translate
 from harness.common import (
-    AND, DEQ, IFF, ITE, MINUS, NOT, OR, PLUS, EmptyLocation, GENOME40, blocks_of, chrom_parent, chunk_parent, layout_blocks,
+    AND, DEQ, IFF, ITE, MAX, MIN, MINUS, NOT, OR, PLUS, SUM, EmptyLocation, GENOME40, blocks_of, chrom_parent, chunk_parent, layout_blocks,
     layout_params, layout_pre, member, mult, sname, total_len,
 )
 from vlib.obl import Obl
@@ -123,6 +123,37 @@ def location_on_chunk(kind, k, strand):
         want = AND(member(p, bl), w <= p, p < w + L)
         conds += [inside_any, mult(p, blocks_of(up)) == ITE(want, 1, 0), up.strand is strand,
                   mult(p - w, blocks_of(rel)) == ITE(want, 1, 0), chunk.is_chunk_relative, NOT(whole.is_chunk_relative)]
+        return AND(*conds)
+
+    return fn
+
+
+def blocks_on_chunk(kind, k, strand):
+    """block structure of the chunk-relative view: the chromosome blocks clipped to the window, block for block (blocks that touch each other, the way a
+    frameshift is modelled, stay separate blocks), whatever the window cuts"""
+
+    def fn(**kw):
+        bl = layout_blocks(k, kw)
+        w = kw["w"]
+        st, en = [b[0] for b in bl], [b[1] for b in bl]
+        par = chunk_parent(w, L)
+        if kind == "feature":
+            chunk = FeatureInterval(st, en, strand, guid=44, parent_or_seq_chunk_parent=par)
+        elif kind == "transcript":
+            chunk = TranscriptInterval(st, en, strand, guid=44, parent_or_seq_chunk_parent=par)
+        else:
+            chunk = CDSInterval(st, en, strand, [CDSFrame.ZERO] * k, guid=44, parent_or_seq_chunk_parent=par)
+        inside = [AND(s < w + L, w < e) for s, e in bl]
+        rel = chunk.chunk_relative_location
+        if rel is EmptyLocation():
+            return NOT(OR(*inside))
+        rb = blocks_of(rel)
+        conds = [len(rb) == SUM([ITE(c, 1, 0) for c in inside]), chunk.num_chunk_relative_blocks == len(rb), DEQ(blocks_of(chunk.chromosome_location), bl)]
+        for (s, e), c in zip(bl, inside):
+            cs, ce = MAX([s, w]) - w, MIN([e, w + L]) - w
+            conds.append(IFF(c, OR(*[AND(r[0] == cs, r[1] == ce) for r in rb])))
+        for a, b in zip(rb, rb[1:]):
+            conds.append(a[0] <= b[0])
         return AND(*conds)
 
     return fn
@@ -461,6 +492,16 @@ def obligations(tier):
                                desc="chunk-built %s: chromosome coordinates/blocks/to_dict unchanged; chunk-relative location lifted back == chromosome "
                                     "location inside the window (offsets from the window start); no base in the chunk => EmptyLocation, not an error" % kind,
                                bounds="%d blocks, symbolic coordinates and window start, chunk length %d" % (k, L), examples=[ex, dict(ex, w=400)]))
+        for kind, k in ((("feature", 2), ("cds", 3)) if quick else (("feature", 2), ("feature", 3), ("transcript", 3), ("cds", 2), ("cds", 3), ("cds", 4))):
+            params = dict(layout_params(k))
+            params.update(w=int)
+            ex = dict({"s0": 103, "w": 100}, **{"l%d" % i: 3 for i in range(k)}, **{"g%d" % i: 0 for i in range(1, k)})
+            out.append(Obl("blocks_on_chunk_%s_k%d_%s" % (kind, k, sn), blocks_on_chunk(kind, k, strand), params,
+                           (lambda k: (lambda **kw: layout_pre(k, kw, min_len=1, min_gap=0) and kw["w"] >= 0))(k), budget=600, cost=20 * k * k,
+                           desc="chunk-built %s: the chunk-relative blocks are the chromosome blocks clipped to the window, block for block - blocks that "
+                                "touch (0-bp gap, a modelled frameshift) stay separate blocks whatever the window cuts" % kind,
+                           bounds="%d blocks with gaps >= 0 (adjacent allowed), symbolic coordinates and window start, chunk length %d" % (k, L),
+                           examples=[ex, dict(ex, w=105), dict(ex, g1=2)]))
         out.append(Obl("cds_sliced_out_%s" % sn, cds_sliced_out(strand), dict(s0=int, l0=int, g1=int, l1=int, co=int, cl=int, w=int, p=int),
                        lambda s0, l0, g1, l1, co, cl, w, p: s0 >= 0 and l0 >= 1 and g1 >= 1 and l1 >= 1 and co >= 0 and cl >= 1 and co + cl <= l1 and w >= 0,
                        budget=600, cost=120,
